@@ -48,7 +48,22 @@ func GenInput(t *simrt.Tape, class string) (name string, text string) {
 	numRe := []string{`/[0-9]+/`, `$NUMBER`, `/0|[1-9][0-9]*/`}[t.Draw(3)]
 	switch class {
 	case InAccepted:
-		switch t.Draw(7) {
+		switch t.Draw(9) {
+		case 7, 8:
+			// keyword lists: same-kind, same-length names that differ only in case or in one letter -
+			// ties for any comparator that is coarser than the full name
+			pool := []string{`"select"`, `"SELECT"`, `"Select"`, `"from"`, `"FROM"`, `"e"`, `"E"`, `"x"`, `"X"`, `"if"`, `"IF"`, `"If"`, `"ab"`, `"ba"`, `"AB"`}
+			var items []string
+			seen := map[string]bool{}
+			n := 2 + t.Draw(6)
+			for i := 0; i < n; i++ {
+				it := pool[t.Draw(len(pool))]
+				if !seen[it] {
+					seen[it] = true
+					items = append(items, it)
+				}
+			}
+			fmt.Fprintf(&b, "start = %s;\n", strings.Join(items, " | "))
 		case 0:
 			fmt.Fprintf(&b, "start = %s;\n", []string{`"a"`, `"a" "b"`, `"x" | "y"`}[t.Draw(3)])
 		case 1:
